@@ -139,28 +139,47 @@ pub fn judge_image(ctx: &Ctx, image: &Shadow, lo: usize, hi: usize, what: &str, 
 				return Err(Fail::new(&format!("crash-{}", f.kind), format!("{}: recovered to S_{} but: {}", what, j, f.msg)))
 			}
 		}
-		// storage accounting of multitree columns after recovery
+		// storage accounting of multitree columns after recovery. Several prefixes may be indistinguishable by
+		// observation (insert, remove, insert again: S_1 and S_3 read the same): the accounting is judged against every
+		// admissible prefix with the recovered observation, not only against the one chosen above (a first version
+		// took the largest one, found no unlogged insertion behind it and reported a leak that the smaller prefix
+		// explains: the claimed-entries finding).
+		let cands: Vec<usize> = {
+			let mut c: Vec<usize> = matches.iter().cloned().filter(|x| *x >= lo && *x <= hi).collect();
+			if !c.contains(&j) {
+				c.push(j);
+			}
+			c
+		};
 		for (ci, cm) in ex.model.cols.iter().enumerate() {
 			if let crate::model::ColModel::Tree(t) = cm {
 				if let Ok(n) = ex.db().get_num_column_value_entries(ci as u8) {
-					let m = t.total_entries();
-					if n != m {
-						// nodes claimed (at commit time) by insertions that were not yet logged when the crash hit
-						let claimed: u64 = ctx.accepted[j..].iter().map(|tx| tx.iter().map(|(c, op)| match op {
+					let entries_of = |jj: usize| -> u64 {
+						match &ctx.prefix[jj].cols[ci] {
+							crate::model::ColModel::Tree(t) => t.total_entries(),
+							_ => 0,
+						}
+					};
+					if cands.iter().any(|jj| entries_of(*jj) == n) {
+						continue
+					}
+					// nodes claimed (at commit time) by insertions that were not yet logged when the crash hit
+					let claimed_after = |jj: usize| -> u64 {
+						ctx.accepted[jj..].iter().map(|tx| tx.iter().map(|(c, op)| match op {
 							crate::core::Op::InsertTree(_, node) if *c as usize == ci => node.count_nodes() as u64 - 1,
 							_ => 0,
-						}).sum::<u64>()).sum();
-						let msg = if n > m && n - m <= claimed {
-							format!("{}: recovered to S_{}: column {} holds {} value entries, the model {}: {} entries claimed by tree insertions not yet logged at the crash are leaked", what, j, ci, n, m, n - m)
-						} else {
-							format!("{}: recovered to S_{}: get_num_column_value_entries(c{}) = {}, model holds {} roots + {} nodes", what, j, ci, n, t.roots.len(), t.nodes.len())
-						};
-						let f = Fail::new("crash-entries-mismatch", msg);
-						if crate::report::match_known(ctx.property, &format!("{}: {}", f.kind, f.msg)).is_none() {
-							return Err(f)
-						}
-						*stats.recovered_to.entry("known:claimed-entries-leak".into()).or_insert(0) += 1;
+						}).sum::<u64>()).sum()
+					};
+					let leak = cands.iter().cloned().find(|jj| n > entries_of(*jj) && n - entries_of(*jj) <= claimed_after(*jj));
+					let msg = match leak {
+						Some(jj) => format!("{}: recovered to S_{}: column {} holds {} value entries, the model {}: {} entries claimed by tree insertions not yet logged at the crash are leaked", what, jj, ci, n, entries_of(jj), n - entries_of(jj)),
+						None => format!("{}: recovered to S_{}: get_num_column_value_entries(c{}) = {}, model holds {} roots + {} nodes", what, j, ci, n, t.roots.len(), t.nodes.len()),
+					};
+					let f = Fail::new("crash-entries-mismatch", msg);
+					if crate::report::match_known(ctx.property, &format!("{}: {}", f.kind, f.msg)).is_none() {
+						return Err(f)
 					}
+					*stats.recovered_to.entry("known:claimed-entries-leak".into()).or_insert(0) += 1;
 				}
 			}
 		}
@@ -181,7 +200,9 @@ pub fn judge_image(ctx: &Ctx, image: &Shadow, lo: usize, hi: usize, what: &str, 
 			let rep = crate::parser::check_dir(&ex.dir, ctx.cfg, &model);
 			if let Some(p) = rep.problems.first() {
 				// entries claimed (at commit time) by tree insertions that were not yet logged when the crash hit
-				let claimed: usize = ctx.accepted[j..].iter().map(|tx| tx.iter().map(|(_, op)| match op {
+				// (judged against the smallest admissible prefix with the recovered observation: see the accounting above)
+				let jmin = cands.iter().cloned().min().unwrap_or(j);
+				let claimed: usize = ctx.accepted[jmin..].iter().map(|tx| tx.iter().map(|(_, op)| match op {
 					crate::core::Op::InsertTree(_, node) => node.count_nodes() - 1,
 					_ => 0,
 				}).sum::<usize>()).sum();
